@@ -53,7 +53,8 @@ pub fn c19(log: &mut Log, seed: u64, tier: &str, fst_bin: &str, work: &str) {
     std::fs::create_dir_all(work.join("tmp")).unwrap();
     let nconf = if thorough { 120 } else { 28 };
     let nseeds = if thorough { 12 } else { 4 };
-    for conf in 0..nconf {
+    let mut hangs = 0;
+    'confs: for conf in 0..nconf {
         let is_set = conf % 4 == 3;
         let dupfree = conf % 3 == 0;
         let n = *pick(&mut r, &[0usize, 1, 2, 3, 5, 8, 12, 20]);
@@ -140,10 +141,11 @@ pub fn c19(log: &mut Log, seed: u64, tier: &str, fst_bin: &str, work: &str) {
                 cmd.arg("--min");
             }
             cmd.env("TMPDIR", &tmp).env("FST_VERIF_TRACE", &tr).env("FST_VERIF_SEED", dseed.to_string());
-            let res = cmd.output().unwrap();
+            // (a run that never ends is an outcome: the limit is far above the milliseconds a run takes)
+            let (res, timed_out) = output_within(&mut cmd, 30);
             let model_rows: Vec<Value> = rows.iter().map(|(k, v)| json!([jb(k.as_bytes()), ju(if is_set { 0 } else { *v })])).collect();
             log.ev(json!({"ev": "Run", "kind": if is_set { "set" } else { "map" }, "mode": mode, "bs": bs, "fd": fd, "threads": threads,
-                          "seed": jn(dseed as usize % (1 << 30)), "rows": model_rows, "dupfree": dupfree, "files": nfiles}));
+                          "seed": jn(dseed as usize % (1 << 30)), "rows": model_rows, "dupfree": dupfree, "files": nfiles, "input": conf}));
             // the hook's events, augmented with each file's content
             let tmpdir = std::fs::read_dir(&tmp).ok().and_then(|mut d| d.next()).and_then(|e| e.ok()).map(|e| e.path());
             let mut evs: Vec<Value> = std::fs::read_to_string(&tr).unwrap_or_default().lines().filter_map(|l| serde_json::from_str(l).ok()).collect();
@@ -154,12 +156,21 @@ pub fn c19(log: &mut Log, seed: u64, tier: &str, fst_bin: &str, work: &str) {
                 match content {
                     Some(c) => {
                         e["content"] = jitems(&c);
+                        e["readable"] = json!(true);
                         log.ev(e);
                     }
-                    None => log.ev(json!({"ev": "Panic", "in": "Batch", "msg": format!("temp file {} unreadable", name)})),
+                    None => {
+                        // (kept temp files are a courtesy of --keep-tmp-dir, not part of the property)
+                        e["content"] = json!([]);
+                        e["readable"] = json!(false);
+                        log.ev(e);
+                    }
                 }
             }
-            let exit = res.status.code().unwrap_or(-1);
+            let exit = if timed_out { -2 } else { res.status.code().unwrap_or(-1) };
+            if timed_out {
+                hangs += 1;
+            }
             let fin = read_fst(&out);
             let bytes = std::fs::read(&out).unwrap_or_default();
             let verify = fst::raw::Fst::new(bytes.clone()).ok().map(|f| f.verify().is_ok()).unwrap_or(false);
@@ -173,11 +184,21 @@ pub fn c19(log: &mut Log, seed: u64, tier: &str, fst_bin: &str, work: &str) {
                 }
                 _ => "na",
             };
+            let digest = {
+                let mut h: u64 = 14695981039346656037;
+                for &b in &bytes {
+                    h = (h ^ b as u64).wrapping_mul(1099511628211);
+                }
+                format!("{:016x}-{}", h, bytes.len())
+            };
             match fin {
-                Some(c) => log.ev(json!({"ev": "Final", "exit": exit, "content": jitems(&c), "len": c.len(), "verify": if verify { "ok" } else { "failed" }, "same_as_sorted": same,
+                Some(c) => log.ev(json!({"ev": "Final", "exit": exit, "content": jitems(&c), "len": c.len(), "verify": if verify { "ok" } else { "failed" }, "same_as_sorted": same, "digest": digest,
                                          "stderr": String::from_utf8_lossy(&res.stderr).chars().take(200).collect::<String>()})),
-                None => log.ev(json!({"ev": "Final", "exit": exit, "content": [], "len": -1, "verify": "unreadable", "same_as_sorted": same,
+                None => log.ev(json!({"ev": "Final", "exit": exit, "content": [], "len": -1, "verify": "unreadable", "same_as_sorted": same, "digest": digest,
                                       "stderr": String::from_utf8_lossy(&res.stderr).chars().take(300).collect::<String>()})),
+            }
+            if hangs >= 3 {
+                break 'confs; // established; every further hang would cost the full time limit
             }
         }
     }
